@@ -307,6 +307,9 @@ pub enum Ins {
     LocalTee(u32),
     GlobalGet(u32),
     GlobalSet(u32),
+    /// shared-everything-threads `global.atomic.*` (kind 0 get, 1 set, 2 add, 3 sub, 4 and, 5 or,
+    /// 6 xor, 7 xchg, 8 cmpxchg; acq_rel ordering flag; global)
+    GlobalAtomic(u8, bool, u32),
     I32Const(i32),
     I64Const(i64),
     F32Const(u32),
@@ -324,6 +327,10 @@ pub enum Ins {
     MemoryInit { data: u32, mem: u32 },
     DataDrop(u32),
     Unknown(String),
+}
+
+fn acq(o: &wasmparser::Ordering) -> bool {
+    matches!(o, wasmparser::Ordering::AcqRel)
 }
 
 impl Ins {
@@ -364,6 +371,21 @@ impl Ins {
             Ins::LocalTee(l) => E::LocalTee(*l),
             Ins::GlobalGet(g) => E::GlobalGet(*g),
             Ins::GlobalSet(g) => E::GlobalSet(*g),
+            Ins::GlobalAtomic(k, acq, g) => {
+                let ordering = if *acq { wasm_encoder::Ordering::AcqRel } else { wasm_encoder::Ordering::SeqCst };
+                let global_index = *g;
+                match k {
+                    0 => E::GlobalAtomicGet { ordering, global_index },
+                    1 => E::GlobalAtomicSet { ordering, global_index },
+                    2 => E::GlobalAtomicRmwAdd { ordering, global_index },
+                    3 => E::GlobalAtomicRmwSub { ordering, global_index },
+                    4 => E::GlobalAtomicRmwAnd { ordering, global_index },
+                    5 => E::GlobalAtomicRmwOr { ordering, global_index },
+                    6 => E::GlobalAtomicRmwXor { ordering, global_index },
+                    7 => E::GlobalAtomicRmwXchg { ordering, global_index },
+                    _ => E::GlobalAtomicRmwCmpxchg { ordering, global_index },
+                }
+            }
             Ins::I32Const(v) => E::I32Const(*v),
             Ins::I64Const(v) => E::I64Const(*v),
             Ins::F32Const(v) => E::F32Const(wasm_encoder::Ieee32::from(f32::from_bits(*v))),
@@ -456,6 +478,15 @@ impl Ins {
             Operator::LocalTee { local_index } => Ins::LocalTee(*local_index),
             Operator::GlobalGet { global_index } => Ins::GlobalGet(*global_index),
             Operator::GlobalSet { global_index } => Ins::GlobalSet(*global_index),
+            Operator::GlobalAtomicGet { ordering, global_index } => Ins::GlobalAtomic(0, acq(ordering), *global_index),
+            Operator::GlobalAtomicSet { ordering, global_index } => Ins::GlobalAtomic(1, acq(ordering), *global_index),
+            Operator::GlobalAtomicRmwAdd { ordering, global_index } => Ins::GlobalAtomic(2, acq(ordering), *global_index),
+            Operator::GlobalAtomicRmwSub { ordering, global_index } => Ins::GlobalAtomic(3, acq(ordering), *global_index),
+            Operator::GlobalAtomicRmwAnd { ordering, global_index } => Ins::GlobalAtomic(4, acq(ordering), *global_index),
+            Operator::GlobalAtomicRmwOr { ordering, global_index } => Ins::GlobalAtomic(5, acq(ordering), *global_index),
+            Operator::GlobalAtomicRmwXor { ordering, global_index } => Ins::GlobalAtomic(6, acq(ordering), *global_index),
+            Operator::GlobalAtomicRmwXchg { ordering, global_index } => Ins::GlobalAtomic(7, acq(ordering), *global_index),
+            Operator::GlobalAtomicRmwCmpxchg { ordering, global_index } => Ins::GlobalAtomic(8, acq(ordering), *global_index),
             Operator::I32Const { value } => Ins::I32Const(*value),
             Operator::I64Const { value } => Ins::I64Const(*value),
             Operator::F32Const { value } => Ins::F32Const(value.bits()),
@@ -501,6 +532,10 @@ impl Ins {
         match self {
             Ins::GlobalGet(g) => Some(("global.get(code)", *g)),
             Ins::GlobalSet(g) => Some(("global.set", *g)),
+            Ins::GlobalAtomic(0, _, g) => Some(("global.atomic.get", *g)),
+            Ins::GlobalAtomic(1, _, g) => Some(("global.atomic.set", *g)),
+            Ins::GlobalAtomic(8, _, g) => Some(("global.atomic.rmw.cmpxchg", *g)),
+            Ins::GlobalAtomic(_, _, g) => Some(("global.atomic.rmw", *g)),
             _ => None,
         }
     }
@@ -546,7 +581,7 @@ impl Ins {
         let mut c = self.clone();
         match &mut c {
             Ins::Call(x) | Ins::ReturnCall(x) | Ins::RefFunc(x) => *x = f(*x),
-            Ins::GlobalGet(x) | Ins::GlobalSet(x) => *x = g(*x),
+            Ins::GlobalGet(x) | Ins::GlobalSet(x) | Ins::GlobalAtomic(_, _, x) => *x = g(*x),
             Ins::Mem(_, a) | Ins::Lane(_, a, _) => a.mem = m(a.mem),
             Ins::MemorySize(x) | Ins::MemoryGrow(x) | Ins::MemoryFill(x) => *x = m(*x),
             Ins::MemoryCopy { dst, src } => {
